@@ -507,9 +507,20 @@ Section MetaP.
   Qed.
 
   (* a call rejected by the send firewall writes nothing and consumes no id *)
-  Theorem firewall_send : forall s e, fw_send e = false ->
-    wab (a_send s e) = wab s /\ a_nid (a_send s e) = a_nid s /\ a_pend (a_send s e) = a_pend s.
-  Proof. intros s e H. unfold NodeProto.a_send. rewrite H. simpl. auto. Qed.
+  Theorem firewall_send : forall s e m, fw_send e = false ->
+    wab (a_send s e m) = wab s /\ a_nid (a_send s e m) = a_nid s /\ a_pend (a_send s e m) = a_pend s
+    /\ a_issued (a_send s e m) = a_issued s.
+  Proof. intros s e m H. unfold NodeProto.a_send. rewrite H. simpl. auto. Qed.
+
+  (* a send that passes the firewall, with or without result, writes the call with the current id,
+     records that id as handed to the peer and moves the counter on *)
+  Theorem send_id : forall s e m b, fw_send e = true ->
+    packet dumps D (event_data excl e (JInt (a_nid s))) = Some b ->
+    wab (a_send s e m) = wab s ++ b /\ a_issued (a_send s e m) = a_issued s ++ [a_nid s]
+    /\ a_nid (a_send s e m) = (a_nid s + 1)%Z
+    /\ a_pend (a_send s e m) = match m with MCall => a_pend s ++ [(a_nid s, length (a_calls s))] | _ => a_pend s end
+    /\ a_nores (a_send s e m) = match m with MCall => a_nores s | _ => a_nores s ++ [a_nid s] end.
+  Proof. intros s e m b Hf Hp. unfold NodeProto.a_send. rewrite Hf, Hp. simpl. auto. Qed.
 
   (* the answer to call [id] reaches exactly the waiting call registered under [id] *)
   Theorem result_routing : forall pend calls id i v er e,
@@ -525,47 +536,114 @@ Section MetaP.
     change (get k_errors _) with (Some er). cbn [hashable id_key]. rewrite Hz. reflexivity.
   Qed.
 
-  (* ids of the calls in flight are pairwise distinct, for every schedule and every hostile input *)
+  (* a reply whose id is not registered (e.g. the reply to a send without result) changes nothing *)
+  Theorem unregistered_reply_ignored : forall pend calls id v er e,
+    zget id pend = None -> is_miss (value_data excl (JInt id) er v e) = false ->
+    a_packet excl pend calls (value_data excl (JInt id) er v e) = (calls, false, false).
+  Proof.
+    intros pend calls id v er e Hz Hm. unfold a_packet. rewrite Hm.
+    unfold value_data, is_value. change (get k_value _) with (Some v).
+    unfold load_value. change (get k_meta _) with (Some (JObj (dump_meta excl e))).
+    change (get k_value _) with (Some v). change (get k_id _) with (Some (JInt id)).
+    change (get k_errors _) with (Some er). cbn [hashable id_key]. rewrite Hz. reflexivity.
+  Qed.
+
+  (* ids handed to the peer (with or without result) are never reused; the ids of the waiting calls
+     are among them, pairwise distinct, and disjoint from the ids of sends without result - for every
+     schedule and every hostile input *)
   Notation step := (step excl dumps loads D fw_send fw_recv handler b_chan).
   Definition ids_ok (s : st) : Prop :=
-    NoDup (map fst (a_pend s)) /\ Forall (fun p => (fst p < a_nid s)%Z) (a_pend s).
+    NoDup (a_issued s) /\
+    (forall x, In x (a_issued s) -> (x < a_nid s)%Z) /\
+    NoDup (map fst (a_pend s)) /\
+    (forall x, In x (map fst (a_pend s)) -> In x (a_issued s) /\ ~ In x (a_nores s)) /\
+    (forall x, In x (a_nores s) -> In x (a_issued s)).
 
-  Lemma ids_ok_filter : forall f s s', ids_ok s -> a_nid s' = a_nid s -> a_pend s' = filter f (a_pend s) -> ids_ok s'.
+  Lemma in_keys_filter : forall (f : Z * nat -> bool) l x, In x (map fst (filter f l)) -> In x (map fst l).
   Proof.
-    intros f s s' [Hn Hl] Hnid Hp. unfold ids_ok. rewrite Hp, Hnid. split.
-    - apply NoDup_filter_keys_Z. exact Hn.
-    - apply Forall_forall. intros p Hi. apply filter_In in Hi. rewrite Forall_forall in Hl. apply Hl. tauto.
+    intros f l x H. apply in_map_iff in H. destruct H as [q [Hq Hin]].
+    apply filter_In in Hin. apply in_map_iff. exists q. tauto.
   Qed.
+
+  Lemma ids_ok_filter : forall f s s', ids_ok s -> a_nid s' = a_nid s -> a_issued s' = a_issued s ->
+    a_nores s' = a_nores s -> a_pend s' = filter f (a_pend s) -> ids_ok s'.
+  Proof.
+    intros f s s' (H1 & H2 & H3 & H4 & H5) Hnid Hi Hn Hp. unfold ids_ok. rewrite Hp, Hnid, Hi, Hn.
+    repeat split; try assumption.
+    - apply NoDup_filter_keys_Z. exact H3.
+    - apply (H4 x). eapply in_keys_filter. eassumption.
+    - apply (H4 x). eapply in_keys_filter. eassumption.
+  Qed.
+
+  Lemma ids_ok_same : forall s s', ids_ok s -> a_nid s' = a_nid s -> a_issued s' = a_issued s ->
+    a_nores s' = a_nores s -> a_pend s' = a_pend s -> ids_ok s'.
+  Proof. intros s s' H Hnid Hi Hn Hp. unfold ids_ok in *. rewrite Hp, Hnid, Hi, Hn. exact H. Qed.
 
   Lemma step_ids : forall s o, ids_ok s -> ids_ok (step s o).
   Proof.
-    intros s o H. destruct o as [e|b|b|n|n]; cbn [NodeProto.step].
-    - unfold NodeProto.a_send. destruct (fw_send e); [|exact H].
-      destruct (packet dumps D _); [|exact H].
-      destruct H as [Hn Hl]. unfold ids_ok. cbn [a_pend a_nid]. split.
-      + rewrite map_app. simpl. apply NoDup_app_single; [exact Hn|].
-        intros Hi. apply in_map_iff in Hi. destruct Hi as [p [Hp Hin]].
-        rewrite Forall_forall in Hl. specialize (Hl p Hin). lia.
-      + apply Forall_app. split.
-        * eapply Forall_impl; [|exact Hl]. intros p Hp. simpl in *. lia.
-        * constructor; [simpl; lia|constructor].
-    - exact H.
-    - exact H.
+    intros s o H. destruct o as [e m|b|b|n|n| |]; cbn [NodeProto.step].
+    - unfold NodeProto.a_send. destruct (fw_send e); [|eapply ids_ok_same; [exact H|reflexivity..]].
+      destruct (packet dumps D _); [|eapply ids_ok_same; [exact H|reflexivity..]].
+      destruct H as (H1 & H2 & H3 & H4 & H5). unfold ids_ok. cbn [a_pend a_nid a_issued a_nores].
+      assert (Hfresh : ~ In (a_nid s) (a_issued s)) by (intros Hi; specialize (H2 _ Hi); lia).
+      split; [apply NoDup_app_single; assumption|].
+      split; [intros x Hx; apply in_app_or in Hx; destruct Hx as [Hx|[<-|[]]]; [specialize (H2 _ Hx)|]; lia|].
+      destruct m.
+      + (* with result *)
+        split; [rewrite map_app; simpl; apply NoDup_app_single; [exact H3|]; intros Hi; apply Hfresh, (H4 _ Hi)|].
+        split.
+        * intros x Hx. rewrite map_app in Hx. apply in_app_or in Hx. destruct Hx as [Hx|[<-|[]]].
+          -- destruct (H4 _ Hx). split; [apply in_or_app; left|]; assumption.
+          -- split; [apply in_or_app; right; left; reflexivity|]. intros Hn. apply Hfresh, (H5 _ Hn).
+        * intros x Hx. apply in_or_app. left. apply (H5 _ Hx).
+      + split; [exact H3|]. split.
+        * intros x Hx. destruct (H4 _ Hx) as [Ha Hb]. split; [apply in_or_app; left; exact Ha|].
+          intros Hn. apply in_app_or in Hn. destruct Hn as [Hn|[<-|[]]]; [contradiction|contradiction].
+        * intros x Hx. apply in_app_or in Hx. apply in_or_app. destruct Hx as [Hx|[<-|[]]]; [left; apply (H5 _ Hx)|right; left; reflexivity].
+      + split; [exact H3|]. split.
+        * intros x Hx. destruct (H4 _ Hx) as [Ha Hb]. split; [apply in_or_app; left; exact Ha|].
+          intros Hn. apply in_app_or in Hn. destruct Hn as [Hn|[<-|[]]]; [contradiction|contradiction].
+        * intros x Hx. apply in_app_or in Hx. apply in_or_app. destruct Hx as [Hx|[<-|[]]]; [left; apply (H5 _ Hx)|right; left; reflexivity].
+    - eapply ids_ok_same; [exact H|reflexivity..].
+    - eapply ids_ok_same; [exact H|reflexivity..].
     - destruct (take n (wab s)) as [d rest]. destruct d; [exact H|].
       unfold b_read. cbn [b_buf]. destruct (feed json _ D _ _) as [js buf].
-      destruct (b_packets _ _ _ _ _ _ js) as [[[[l o] ol] ab] bd]. exact H.
+      destruct (b_packets _ _ _ _ _ _ js) as [[[[l o] ol] ab] bd]. eapply ids_ok_same; [exact H|reflexivity..].
     - destruct (take n (wba s)) as [d rest]. destruct d; [exact H|].
       unfold a_read. cbn [a_buf a_pend a_calls]. destruct (feed json _ D _ _) as [js buf].
       destruct (a_packets _ _ _ js) as [[calls ab] bd].
-      eapply (ids_ok_filter _ s); [exact H|reflexivity|reflexivity].
+      eapply (ids_ok_filter _ s); [exact H|reflexivity..].
+    - destruct (take_packet D (wab s)) as [d rest]. destruct d; [exact H|].
+      unfold b_read. cbn [b_buf]. destruct (feed json _ D _ _) as [js buf].
+      destruct (b_packets _ _ _ _ _ _ js) as [[[[l o] ol] ab] bd]. eapply ids_ok_same; [exact H|reflexivity..].
+    - destruct (take_packet D (wba s)) as [d rest]. destruct d; [exact H|].
+      unfold a_read. cbn [a_buf a_pend a_calls]. destruct (feed json _ D _ _) as [js buf].
+      destruct (a_packets _ _ _ js) as [[calls ab] bd].
+      eapply (ids_ok_filter _ s); [exact H|reflexivity..].
   Qed.
 
-  Theorem ids_unique : forall ops, NoDup (map fst (a_pend (exec excl dumps loads D fw_send fw_recv handler b_chan ops))).
+  Lemma zget_notin : forall x l, ~ In x (map fst l) -> zget x l = None.
   Proof.
-    intros ops. unfold exec.
+    intros x l. induction l as [|[k v] l IH]; simpl; intros H; [reflexivity|].
+    destruct (Z.eqb x k) eqn:E; [apply Z.eqb_eq in E; subst; exfalso; apply H; left; reflexivity|].
+    apply IH. intros Hi. apply H. right. exact Hi.
+  Qed.
+
+  Theorem ids_unique : forall ops,
+    let s := exec excl dumps loads D fw_send fw_recv handler b_chan ops in
+    NoDup (a_issued s) /\ NoDup (map fst (a_pend s)) /\
+    (forall x, In x (map fst (a_pend s)) -> In x (a_issued s)) /\
+    (forall x, In x (a_nores s) -> In x (a_issued s) /\ zget x (a_pend s) = None).
+  Proof.
+    intros ops s. subst s. unfold exec.
     assert (H : forall s, ids_ok s -> ids_ok (fold_left step ops s)).
     { induction ops as [|o ops IH]; intros s Hs; [exact Hs|]. simpl. apply IH. apply step_ids. exact Hs. }
-    apply H. split; [constructor|constructor].
+    destruct (H (st0) ) as (H1 & H2 & H3 & H4 & H5).
+    { unfold ids_ok. simpl. split; [constructor|]. split; [intros x []|]. split; [constructor|]. split; intros x []. }
+    split; [exact H1|]. split; [exact H3|]. split.
+    - intros x Hx. apply (H4 x Hx).
+    - intros x Hx. split; [apply (H5 x Hx)|].
+      apply zget_notin. intros Hi. destruct (H4 _ Hi) as [_ Hn]. contradiction.
   Qed.
 End MetaP.
 
@@ -623,7 +701,7 @@ Module Ex.
   Definition D : list N := [126; 126; 126].
   Definition final (h : event -> option (option json)) (cut : nat) : st :=
     exec excl dumps loads D (fun _ => true) (fun _ => true) h (JStr [110]) 
-         [OSend e0; OAB cut; OAB 0%nat; OBA cut; OBA 0%nat].
+         [OSend e0 MCall; OAB cut; OAB 0%nat; OBA cut; OBA 0%nat].
 
   Lemma roundtrip : forall cut, In cut [0; 1; 2; 3]%nat ->
     map c_val (a_calls (final (fun _ => Some (Some result)) cut)) = [result]
@@ -638,6 +716,17 @@ Module Ex.
   Lemma error_lost_ex : exists h cut,
     length (b_log (final h cut)) = 1%nat /\ map c_fin (a_calls (final h cut)) = [false].
   Proof. exists (fun _ => Some None), 0%nat. destruct error_lost as [H1 H2]. split; assumption. Qed.
+
+  (* a send without result: the peer runs the event once and answers; the answer is ignored, nobody is
+     resumed, the id stays used up; a following call gets the next id *)
+  Definition final_nores (m : smode) : st :=
+    exec excl dumps loads D (fun _ => true) (fun _ => true) (fun _ => Some (Some result)) (JStr [110])
+         [OSend e0 m; OABP; OBAP; OSend e0 MCall].
+  Lemma noresult_ex : forall m, In m [MNoResAttr; MNoResApi] ->
+    length (b_log (final_nores m)) = 1%nat /\ map c_fin (a_calls (final_nores m)) = [false; false]
+    /\ a_issued (final_nores m) = [0; 1]%Z /\ a_nores (final_nores m) = [0%Z]
+    /\ map fst (a_pend (final_nores m)) = [1%Z].
+  Proof. intros m H. simpl in H. repeat (destruct H as [<-|H]; [vm_compute; auto|]). contradiction. Qed.
 
   Lemma e0_wf : wf_event e0 /\ NoDup (map fst (eattrs e0)).
   Proof. repeat split; try reflexivity. repeat constructor. simpl. tauto. Qed.
